@@ -31,6 +31,7 @@
 #include <string.h>
 #include <sys/ioctl.h>
 #include <sys/socket.h>
+#include <sys/stat.h>
 #include <net/if.h>
 #include <linux/sockios.h>
 #include <linux/ethtool.h>
@@ -207,7 +208,17 @@ int ioctl(int fd, unsigned long request, ...) {
         char name[IFNAMSIZ + 1];
         char mtu[64], flags[64], eth[64];
         const char *ans;
+        struct stat st_;
 
+        /* like the kernel: the descriptor must be an open socket */
+        if (fstat(fd, &st_) != 0) {
+            errno = EBADF;
+            return -1;
+        }
+        if (!S_ISSOCK(st_.st_mode)) {
+            errno = ENOTTY;
+            return -1;
+        }
         memcpy(name, ifr->ifr_name, IFNAMSIZ);
         name[IFNAMSIZ] = '\0';
         if (!find_if(path, name, mtu, flags, eth, sizeof mtu)) {
